@@ -19,7 +19,7 @@ CHR_DEFAULTS = ["'a'", r"'\''", r"'\\'", "'\"'", r"'\n'", r"'\0'", "'%'"]
 FLT_DEFAULTS = ["1e-3", "2.5f", "0.1", "-0.0", "1e300", "3.0e+5f", ".5", "5."]
 
 
-def generate(rng, libname="liba"):
+def generate(rng, libname="liba", char_buffers=True):
     r = rng
     h = [f"#ifndef {libname.upper()}_H", f"#define {libname.upper()}_H", '#include "vfpub.h"', "#include <string>",
          '#include "libgen_rt.h"']
@@ -78,7 +78,7 @@ def generate(rng, libname="liba"):
         ty = "float" if d.endswith("f") else "double"
         h.append(f"  double fl{i}_{n}({ty} d = {d}) const;")
         cx.append(f"double Adv{n}::fl{i}_{n}({ty} d) const {{ return d; }}")
-    if r.random() < 0.6:
+    if r.random() < 0.6 and char_buffers:
         # writable C strings next to const ones (a string remap must not make them const)
         feats.append("char-buffers")
         h += [f"  int fill_{n}(char *buf, int len);", f"  int peek_{n}(const char *s) const;", f"  char *own_{n}();"]
@@ -90,6 +90,40 @@ def generate(rng, libname="liba"):
         h.append(f"  static int {r.choice(['from_', 'import_', 'class_'])}(int x = -1);")
         cx.append(cx_static(h[-1], f"Adv{n}"))
     h.append("};")
+    # (v3) abstract hierarchies: a class stays abstract unless every pure virtual is overridden with exactly the same
+    # parameter types; a same-named function that differs in the const of a pointee/referent only hides it
+    if r.random() < 0.85:
+        feats.append("abstract-hierarchy")
+        pay = f"Pay{n}"
+        h += [f"class {pay} {{", "PUBLISHED:", f"  {pay}();", "  int w;", "};"]
+        cx += [f"{pay}::{pay}() : w(0) {{}}"]
+        shape = r.choice(["ptr", "ref", "both"])
+        sigs = []
+        if shape in ("ptr", "both"):
+            sigs.append(("put_p", f"{pay} *item", f"const {pay} *item"))
+        if shape in ("ref", "both"):
+            sigs.append(("put_r", f"{pay} &item", f"const {pay} &item"))
+        ab = f"Sink{n}"
+        h += [f"class {ab} {{", "PUBLISHED:", f"  virtual ~{ab}();"] + \
+             [f"  virtual int {nm}({mp}) = 0;" for nm, mp, cp in sigs] + ["  int level() const;", "};"]
+        cx += [f"{ab}::~{ab}() {{}}", f"int {ab}::level() const {{ return 1; }}"]
+        # concrete: overrides everything exactly
+        cc = f"Full{n}"
+        h += [f"class {cc} : public {ab} {{", "PUBLISHED:", f"  {cc}();"] + \
+             [f"  {'virtual ' if r.random() < 0.5 else ''}int {nm}({mp});" for nm, mp, cp in sigs] + ["};"]
+        cx += [f"{cc}::{cc}() {{}}"] + [f"int {cc}::{nm}({mp}) {{ return 2; }}" for nm, mp, cp in sigs]
+        # still abstract: only hides (const added below the pointer/reference)
+        hc = f"Hide{n}"
+        h += [f"class {hc} : public {ab} {{", "PUBLISHED:"] + [f"  int {nm}({cp});" for nm, mp, cp in sigs] + ["  int extra() const;", "};"]
+        cx += [f"int {hc}::{nm}({cp}) {{ return 3; }}" for nm, mp, cp in sigs] + [f"int {hc}::extra() const {{ return 4; }}"]
+        # abstract without any user-declared special member, and a class deriving from it that completes it
+        pa = f"Part{n}"
+        h += [f"class {pa} : public {hc} {{", "PUBLISHED:", f"  int {sigs[0][0]}({sigs[0][1]});", "};"]
+        cx += [f"int {pa}::{sigs[0][0]}({sigs[0][1]}) {{ return 5; }}"]
+        if len(sigs) == 1:
+            feats.append("abstract-completed-two-levels-down")
+        h += ["BEGIN_PUBLISH", f"int use_sink{n}({ab} &s, {hc} *h);", "END_PUBLISH"]
+        cx += [f"int use_sink{n}({ab} &s, {hc} *h) {{ return s.level() + (h ? h->extra() : 0); }}"]
     # macros
     for i in range(r.randrange(1, 5)):
         k = r.choice(["str", "chr", "neg", "expr", "flt", "strcat"])
